@@ -105,6 +105,15 @@ add("C08", "exploration",
     "Crash states are constructed from the two complete state files (old and new) rather than by killing a process; on-disk confirmation counts are assumed to precede the report (as the protocol orders them).",
     "property-based testing (order/duplication of reports) + crash-state enumeration of the persistence sequence", "§4 C08")
 
+add("C12", "exploration",
+    "A generated coordinator log (single and multi-event transactions with assigned sequence ranges) is delivered to the real node, acting as replica, through its ReplicateWrite message in tape-chosen orders with duplicates, conflicting transactions at occupied sequences and transactions keyed inside a multi-event range; asks are enqueued in schedule order and awaited concurrently. The replica's partition log must always be a prefix of the coordinator log, end as exactly the longest fully delivered prefix, never apply a conflicting write, leave no ask pending below its next sequence, and keep answering afterwards.",
+    NODE_NOTE + " The node's own remote ref plays the coordinator; buffer overflow/eviction (1000 entries after ResetCluster) is not reached.",
+    "stateful property-based testing of delivery schedules against a prefix invariant", "§4 C12")
+add("C22", "exploration",
+    "Generated command histories (EAPPEND, EMAPPEND, EGET, ESCAN, EPSCAN incl. paging, ESVER, EPSEQ, malformed requests, ESUB/EACK) are sent over TCP to the real RESP server in front of the in-process node (rf 1; strict versioning on/off per worker) and every reply is compared with a reference event-store model: versions and sequences of appends, event contents, inclusive ranges, has_more never false while matching events remain, errors (connection still usable) for invalid requests, read-after-acknowledgement.",
+    NODE_NOTE + " has_more = true with nothing left in the requested range is not judged (the server defines it as 'the stream continues').",
+    "stateful property-based testing of the wire API against a reference model", "§4 C22")
+
 NOT_BUILT = {}
 ALL = ["C%02d" % i for i in range(1, 27)]
 for i in ALL:
